@@ -7,8 +7,11 @@ import (
 	"encoding/json"
 	"flag"
 	"fmt"
+	"io"
 	"math/rand"
 	"os"
+	"sync"
+	"time"
 
 	"cuelabs.dev/go/oci/ociregistry"
 	"cuelabs.dev/go/oci/ociregistry/ocimem"
@@ -25,6 +28,95 @@ func init() { commands["unify"] = unifyCmd }
 type UStep struct {
 	Via string `json:"via"`
 	Op  Op     `json:"op"`
+	// WF[i]: member i fails this call (made through the unifier) by itself: it takes the call -
+	// a pushed body is read to the end - stores nothing and answers DENIED.
+	WF [2]bool `json:"wf"`
+	// First: the member that answers first (the other answers only after it); -1: not controlled.
+	First int `json:"first"`
+}
+
+// faultWriter sits between the unifier and a member.  For the call it is armed for it injects
+// the failure and/or holds its answer back until the other member has answered.
+type faultWriter struct {
+	ociregistry.Interface
+	idx int
+	st  *faultState
+}
+
+type faultState struct {
+	mu       sync.Mutex
+	armed    bool
+	wf       [2]bool
+	first    int
+	answered [2]chan struct{}
+}
+
+func (st *faultState) arm(wf [2]bool, first int) {
+	st.mu.Lock()
+	defer st.mu.Unlock()
+	st.armed, st.wf, st.first = true, wf, first
+	st.answered = [2]chan struct{}{make(chan struct{}), make(chan struct{})}
+}
+
+func (st *faultState) disarm() {
+	st.mu.Lock()
+	defer st.mu.Unlock()
+	st.armed = false
+}
+
+var errInjectedWrite = fmt.Errorf("injected member failure: %w", ociregistry.ErrDenied)
+
+// around runs one replicated write on member f.idx: do is the member's own method; consume
+// reads a pushed body to the end (what a member does that fails at commit time).
+func (f faultWriter) around(do func() error, consume func()) error {
+	st := f.st
+	st.mu.Lock()
+	armed, fail, first, answered := st.armed, st.wf[f.idx], st.first, st.answered
+	st.mu.Unlock()
+	if !armed {
+		return do()
+	}
+	var err error
+	if fail {
+		if consume != nil {
+			consume()
+		}
+		err = errInjectedWrite
+	} else {
+		err = do()
+	}
+	if first >= 0 && first != f.idx {
+		// the other member answers first; give its answer the time to reach the unifier
+		select {
+		case <-answered[first]:
+		case <-time.After(2 * time.Second):
+		}
+		time.Sleep(300 * time.Microsecond)
+	}
+	close(answered[f.idx])
+	return err
+}
+
+func (f faultWriter) PushBlob(ctx context.Context, repo string, desc ociregistry.Descriptor, r io.Reader) (d ociregistry.Descriptor, err error) {
+	err = f.around(func() (e error) { d, e = f.Interface.PushBlob(ctx, repo, desc, r); return }, func() { io.Copy(io.Discard, r) })
+	return
+}
+func (f faultWriter) PushManifest(ctx context.Context, repo, tag string, contents []byte, mediaType string) (d ociregistry.Descriptor, err error) {
+	err = f.around(func() (e error) { d, e = f.Interface.PushManifest(ctx, repo, tag, contents, mediaType); return }, nil)
+	return
+}
+func (f faultWriter) MountBlob(ctx context.Context, from, to string, dg ociregistry.Digest) (d ociregistry.Descriptor, err error) {
+	err = f.around(func() (e error) { d, e = f.Interface.MountBlob(ctx, from, to, dg); return }, nil)
+	return
+}
+func (f faultWriter) DeleteBlob(ctx context.Context, repo string, dg ociregistry.Digest) error {
+	return f.around(func() error { return f.Interface.DeleteBlob(ctx, repo, dg) }, nil)
+}
+func (f faultWriter) DeleteManifest(ctx context.Context, repo string, dg ociregistry.Digest) error {
+	return f.around(func() error { return f.Interface.DeleteManifest(ctx, repo, dg) }, nil)
+}
+func (f faultWriter) DeleteTag(ctx context.Context, repo, name string) error {
+	return f.around(func() error { return f.Interface.DeleteTag(ctx, repo, name) }, nil)
 }
 
 type ListFault struct {
@@ -129,6 +221,10 @@ func (u *urun) exec(sc UScenario, pol string) {
 	if pol == "conc" {
 		policy = ociunify.ReadConcurrent
 	}
+	fst := &faultState{}
+	for i := range wrapped {
+		wrapped[i] = faultWriter{Interface: wrapped[i], idx: i, st: fst}
+	}
 	uni := ociunify.New(wrapped[0], wrapped[1], &ociunify.Options{ReadPolicy: policy})
 	enc := json.NewEncoder(&u.buf)
 	mk := func(top ociregistry.Interface) *world {
@@ -143,8 +239,15 @@ func (u *urun) exec(sc UScenario, pol string) {
 		if w == nil {
 			panic("bad via " + st.Via)
 		}
+		controlled := st.Via == "u" && (st.WF != [2]bool{} || st.First >= 0) && isContentWrite(st.Op.Op)
+		if controlled {
+			fst.arm(st.WF, st.First)
+		} else {
+			st.WF, st.First = [2]bool{}, -1
+		}
 		w.step(ctx, st.Op)
-		u.line(fmt.Sprintf("%q:%q", "via", st.Via))
+		fst.disarm()
+		u.line(fmt.Sprintf("%q:%q,%q:[%v,%v],%q:%d", "via", st.Via, "wf", st.WF[0], st.WF[1], "first", st.First))
 		for i := range mems {
 			w.snap1(ctx, mems[i])
 			u.line(fmt.Sprintf("%q:%d", "member", i))
@@ -184,7 +287,7 @@ func divergentPrefix(rnd *rand.Rand, cat *Catalog, hot string) []UStep {
 	var steps []UStep
 	direct := func(via string, ops ...Op) {
 		for _, o := range ops {
-			steps = append(steps, UStep{Via: via, Op: o})
+			steps = append(steps, UStep{Via: via, Op: o, First: -1})
 		}
 	}
 	// how likely an item goes to both members: equal-heavy, disjoint-heavy, mixed, one member only
@@ -315,7 +418,7 @@ func readSweep(rnd *rand.Rand, cat *Catalog, hot string, dense bool) []UStep {
 	rnd.Shuffle(len(ops), func(i, j int) { ops[i], ops[j] = ops[j], ops[i] })
 	steps := make([]UStep, len(ops))
 	for i, o := range ops {
-		steps[i] = UStep{Via: "u", Op: o}
+		steps[i] = UStep{Via: "u", Op: o, First: -1}
 	}
 	return steps
 }
@@ -358,7 +461,7 @@ func resumeUpload(rnd *rand.Rand, cat *Catalog, r, u string) []UStep {
 	ops = append(ops, Op{Op: "Commit", R: r, U: u, DD: b.ID}, Op{Op: "ResolveBlob", R: r, C: b.ID}, Op{Op: "GetBlob", R: r, C: b.ID})
 	steps := make([]UStep, len(ops))
 	for i, o := range ops {
-		steps[i] = UStep{Via: "u", Op: o}
+		steps[i] = UStep{Via: "u", Op: o, First: -1}
 	}
 	return steps
 }
@@ -373,7 +476,7 @@ func asymWrites(rnd *rand.Rand, cat *Catalog, hot string) []UStep {
 	}
 	add := func(via string, ops ...Op) {
 		for _, o := range ops {
-			steps = append(steps, UStep{Via: via, Op: o})
+			steps = append(steps, UStep{Via: via, Op: o, First: -1})
 		}
 	}
 	var blobs, mans []string
@@ -409,10 +512,60 @@ func asymWrites(rnd *rand.Rand, cat *Catalog, hot string) []UStep {
 	return steps
 }
 
+// faultyWrites: replicated writes through the unifier during which one member fails by itself,
+// answering before or after the healthy one.  Every combination for PushBlob (the one call
+// whose result handling depends on the order of the answers), a sample for the others.
+func faultyWrites(rnd *rand.Rand, cat *Catalog, hot string) []UStep {
+	var steps []UStep
+	var blobs, mans []string
+	for _, c := range cat.Contents {
+		if c.Man {
+			mans = append(mans, c.ID)
+		} else {
+			blobs = append(blobs, c.ID)
+		}
+	}
+	u := func(o Op, bad, first int) {
+		st := UStep{Via: "u", Op: o, First: first}
+		if bad >= 0 {
+			st.WF[bad] = true
+		}
+		steps = append(steps, st)
+	}
+	perm := rnd.Perm(len(blobs))
+	k := 0
+	for bad := 0; bad < 2; bad++ {
+		for first := 0; first < 2; first++ {
+			b := blobs[perm[k%len(perm)]]
+			k++
+			u(Op{Op: "PushBlob", R: hot, C: b, DD: b, DS: len(cat.byID[b].Data)}, bad, first)
+			u(Op{Op: "ResolveBlob", R: hot, C: b}, -1, -1)
+		}
+	}
+	// an order of answers without any failure
+	b := blobs[perm[k%len(perm)]]
+	u(Op{Op: "PushBlob", R: hot, C: b, DD: b, DS: len(cat.byID[b].Data)}, -1, rnd.Intn(2))
+	m := mans[rnd.Intn(len(mans))]
+	for _, o := range pushWithDeps(cat, hot, cat.Tags[rnd.Intn(len(cat.Tags))], m) {
+		bad := -1
+		if o.Op == "PushManifest" {
+			bad = rnd.Intn(2)
+		}
+		u(o, bad, rnd.Intn(3)-1)
+	}
+	u(Op{Op: "ResolveManifest", R: hot, C: m}, -1, -1)
+	u(Op{Op: "PushManifest", R: hot, T: "-", C: m, MT: cat.byID[m].Natural}, -1, -1)
+	u(Op{Op: "DeleteManifest", R: hot, C: m}, rnd.Intn(2), rnd.Intn(3)-1)
+	u(Op{Op: "DeleteTag", R: hot, T: cat.Tags[rnd.Intn(len(cat.Tags))]}, rnd.Intn(2), rnd.Intn(3)-1)
+	u(Op{Op: "DeleteBlob", R: hot, C: b}, rnd.Intn(2), rnd.Intn(3)-1)
+	u(Op{Op: "MountBlob", From: hot, R: cat.Repos[rnd.Intn(len(cat.Repos))], C: blobs[perm[0]]}, rnd.Intn(2), rnd.Intn(3)-1)
+	return steps
+}
+
 func viaU(ops []Op) []UStep {
 	steps := make([]UStep, len(ops))
 	for i, o := range ops {
-		steps[i] = UStep{Via: "u", Op: o}
+		steps[i] = UStep{Via: "u", Op: o, First: -1}
 	}
 	return steps
 }
@@ -426,6 +579,7 @@ func genUnifyScenario(rnd *rand.Rand, cat *Catalog, i int) UScenario {
 		sc.Steps = divergentPrefix(rnd, cat, hot)
 		sc.Steps = append(sc.Steps, readSweep(rnd, cat, hot, i%5 == 0)...)
 		sc.Steps = append(sc.Steps, asymWrites(rnd, cat, hot)...)
+		sc.Steps = append(sc.Steps, faultyWrites(rnd, cat, hot)...)
 		sc.Steps = append(sc.Steps, viaU(randOps(rnd, cat, 12, "all", true))...)
 		if rnd.Intn(2) == 0 {
 			sc.Steps = append(sc.Steps, resumeUpload(rnd, cat, hot, cat.Uploads[len(cat.Uploads)-1])...)
@@ -433,7 +587,9 @@ func genUnifyScenario(rnd *rand.Rand, cat *Catalog, i int) UScenario {
 	case 2: // replication from equal members
 		sc.Kind = "repl"
 		prof := []string{"all", "upload", "manifest"}[rnd.Intn(3)]
-		sc.Steps = viaU(randOps(rnd, cat, 36, prof, rnd.Intn(3) != 0))
+		sc.Steps = viaU(randOps(rnd, cat, 30, prof, rnd.Intn(3) != 0))
+		sc.Steps = append(sc.Steps, faultyWrites(rnd, cat, hot)...)
+		sc.Steps = append(sc.Steps, viaU(randOps(rnd, cat, 6, "manifest", true))...)
 	case 3: // chunked uploads with resume through the unifier
 		sc.Kind = "resume"
 		if rnd.Intn(2) == 0 {
@@ -584,6 +740,9 @@ func readUnifyReplay(path string) ([]replayScenario, string, int64, error) {
 				json.Unmarshal(e["inop"], &st.Op.Op)
 			}
 			json.Unmarshal(e["via"], &st.Via)
+			st.First = -1
+			json.Unmarshal(e["wf"], &st.WF)
+			json.Unmarshal(e["first"], &st.First)
 			// the start string is kept; the abstract position must not be applied on top of it
 			if st.Op.Start != "" {
 				st.Op.StartPos = 0
